@@ -620,6 +620,22 @@ def judge(ctx, c, small, reuse):
         ctx.violation(key + '-raises', 'profile raised (%s) on a valid input' % out_i, small)
         return tp_obj
     if out_i != 'ok':
+        # a rejected parameter set stays rejected: asking the SAME object again (the next likelihood call of a sampler, a
+        # derived quantity) must raise again, not hand out a profile
+        if out_i == 'invalid' and tp_obj is not None:
+            from taurex.exceptions import InvalidModelException
+            ctx.bucket('rejected:asked-again')
+            try:
+                with np.errstate(all='ignore'):
+                    again = np.array(tp_obj.profile, dtype=float)
+                ctx.violation(key + '-rejection-forgotten', 'a parameter set that was rejected as an invalid model is '
+                              'accepted when the same object is asked for its profile a second time', small,
+                              dict(profile=again[:5]))
+            except InvalidModelException:
+                pass
+            except Exception as e:  # noqa
+                ctx.violation(key + '-rejection-changed', 'the second request on a rejected parameter set raised %r instead of '
+                              'InvalidModelException' % (e,), small)
         return tp_obj
     if len(prof_i) != n:
         ctx.violation(key + '-length', 'profile has %d values for %d layers' % (len(prof_i), n), small)
